@@ -11,10 +11,14 @@ P = {
  "C05": ("proof", "FlatIterator (Next/NextValidity/NextValid/NextInvalid/Reset/Done/SetReverse/SetForward and the specialised next routines) and FlatMaskedIterator proved against a ghost visit-order specification: each call yields the offset of the next coordinate in row-major order (reverse: descending), exactly size elements are yielded before the noop error, Reset restores the initial state", "DESIGN.md 5 C05"),
  "C06": ("proof", "every generated arithmetic and min/max kernel (1224 functions: vector-vector, vector-scalar, scalar-vector, incr, iterator, iterator-incr, recv, scalar helpers, and the vecf32/vecf64 bodies they delegate to) is proved to apply the specified operator to the specified operands at the specified index, with frame; iterator kernels via one-step (loop step) contracts", "DESIGN.md 5 C06"),
  "C08": ("proof", "Sum, Prod, Reduce (left folds) and Argmax/Argmin (first index of the extreme, strict comparison) kernels proved against recursive fold specifications for all lengths", "DESIGN.md 5 C08"),
+ "C10": ("other", "partial: the shape calculators Shape.Concat and Shape.Repeat are proved (result shape per axis, operands unchanged, refusal of misfitting operands and bad axes, repeat counts copied not retained); the element-moving code (stacking, concatenation by slice-and-assign, repeat kernels) is engine glue over reflection and iterators and is not under contract", "DESIGN.md 5 C10"),
  "C11": ("proof", "every generated comparison kernel (1044 functions: bool and same-type results, vv/sv/vs, iterator variants) proved to deliver the truth value of Go's comparison of the specified operands in operand order, operands unchanged", "DESIGN.md 5 C11"),
  "C12": ("proof", "every generated unary kernel and map kernel (315 functions) proved against the specified scalar function per operation and element type (math/math32/cmplx routines as uninterpreted symbols named after the routine)", "DESIGN.md 5 C12"),
  "C13": ("proof", "Shape.S and AP.S proved against the same per-axis specification in rank-bounded mode (so the calculator agrees with execution); CalcStrides proved; CheckSlice/SliceDetails proved", "DESIGN.md 5 C13"),
+ "C16": ("other", "partial: the order flag algebra (HasSameOrder, setDataOrder, MakeDataOrder as bit-vector facts), column-major stride computation (CalcStridesColMajor, AP.calcStrides both orders), preservation of the order bits by AP.S and the contiguity flag it derives from the storage-outermost axis are proved; operations on column-major operands go through engine glue that is not under contract", "DESIGN.md 5 C16"),
  "C17": ("proof", "union of all schema instantiations: 2651 generated functions each satisfy the one type-generic contract schema of their family; structurally identical VCs across element types are solved once", "DESIGN.md 5 C17"),
+ "C19": ("proof", "ownership discipline as per-function contracts over ghost state lib(array) in {caller, library, pooled}: T/SafeT/RollAxis/Shape.Repeat/reuseCheckShape/SetShape never retain, mutate or pool a caller slice; Clone/SafeT/AP.Clone/CloneTo/Shape.Clone results share no metadata array with their source; UT/Transpose/reuseCheckShape leave no reference to a pooled slice in a live tensor. Pools (BorrowInts/ReturnInts, borrowDense) and storage allocation are trusted contracts; histories are covered by each operation preserving the ownership invariant, not by exploring sequences", "DESIGN.md 5 C19"),
+ "C20": ("other", "partial: the pure-Go divmod (build tag noasm) is proved against the contract the assembly version is trusted with (quotient, remainder, Euclid identity, ranges), and Itol is verified against that contract under both tag sets; BitMap index safety; the float32/float64 engines and the in-place transposition are not under contract", "DESIGN.md 5 C20"),
 }
 checks = []
 for pid, (cat, text, ref) in sorted(P.items()):
